@@ -10,6 +10,11 @@ tie:   scenarios (prefix table + control operations in real asyncio tasks + publ
        evaluated in Python on the implementation's own observations: longest prefix by max(len), no command issued
        for a backend that reports the command disabled, default shapes, caller order, views of tasks that did not
        act are unchanged, bodies executed on every call while fully disabled).
+       Decorated functions are also called CONCURRENTLY (2-4 overlapping calls, equal and different arguments, bodies
+       parked on gates and released in a scripted order, control operations in between): while the caller sees the
+       cache fully disabled every call must start its own execution at once, issue nothing and be handed its own
+       execution's result (results identify the execution); @cache with and without `protected` is compared event
+       by event with the overlapping-calls model (cstart/cfinish/cdrain of Model/Disable.lean).
 """
 from __future__ import annotations
 
@@ -27,19 +32,26 @@ TRUSTED = [
     "Lean 4.33.0 kernel; axioms of every theorem audited to be within {propext, Classical.choice, Quot.sound}",
     "hand-written models lean/CashewsVerif/Model/Route.lean (wrapper.py _get_backend/_add_backend, commands.py grouping and "
     "re-assembly) and Model/Disable.lean (ControlMixin, _is_disable_middleware, TransactionBackend delegation, "
-    "DecoratorsWrapper bypass), tied to the code by this run's scenario correspondence",
+    "DecoratorsWrapper bypass, overlapping calls with thunder_protection joins), tied to the code by this run's scenario "
+    "correspondence",
     "Python str modelled as its list of code points with CPython's code-point lexicographic order; sorted() modelled as "
     "*any* strictly descending arrangement (theorem first_match_is_longest is stated for every such list)",
     "asyncio assumption A3 (DESIGN section 3): a task runs in a copy of its creator's context - modelled by `fork`, "
     "exercised here on the real event loop with real tasks",
     "harness: recording subclasses of Memory / TransactionBackend / LockTransactionBackend (harness/routectl.py), "
-    "call-depth bookkeeping, canonicalisation",
+    "call-depth bookkeeping, canonicalisation; for overlapping decorated calls: bodies parked on asyncio.Event gates, "
+    "attribution of executions and backend commands to calls through a ContextVar inherited by the tasks cashews creates",
     "backend answers are symbolic in the model (the facade's answer is compared as a function of the recorded backend "
     "answers); positional answers of a backend's own get_many are C01's theorem get_many_positional",
 ]
 
 PARTIAL = ("composite helpers (get_or_set, set/incr with tags, delete_tags, lock) and the decorators other than @cache are "
-           "checked against the property oracle only, not against a Lean model; enable_by_default=False (never used by "
+           "checked against the property oracle only, not against a Lean model (overlapping calls: @cache with and without "
+           "`protected` are modelled, lock=True / early / soft / hit / ... are judged by the oracle while fully disabled or "
+           "with every read command disabled); while the cache is NOT fully disabled `protected=True` joins overlapping "
+           "equal-key calls whatever commands are disabled (single-flight by design: mirrored by the model, not judged); "
+           "bodies overlap at one scripted suspension point per execution (interleavings inside cashews' own awaits are "
+           "those of the real event loop, not enumerated); enable_by_default=False (never used by "
            "cashews) is outside the locality theorem; pattern commands are routed by the pattern's own prefix (mirrored, "
            "not judged); transaction semantics proper are C03/C04; more than 4 tasks / 6 registered prefixes are not sampled")
 
@@ -70,10 +82,22 @@ def valid(sc) -> bool:
     live = {0}
     cms: dict[int, int] = {}
     intx = set()
+    fids, calls = set(), set()
     for op in sc["ops"]:
         k, ctx = op[0], op[1]
         if ctx not in live:
             return False
+        if k == "cdef":
+            if op[2] in fids or op[3] not in rc.CDECORATORS:
+                return False
+            fids.add(op[2])
+        elif k == "cstart":
+            if op[2] not in fids or op[3] in calls or ctx in intx:
+                return False
+            calls.add(op[3])
+        elif k == "cfin":
+            if op[2] not in calls:
+                return False
         if k == "fork":
             if op[2] in live or ctx in intx:
                 return False
@@ -116,9 +140,24 @@ def build_lines(sc, run):
                     lines.append((f"isdis {c} {rc.enc(p)} {cmd}", i, ("view", c, p, j + 1)))
             lines.append((f"isfull {c}", i, ("viewfull", c)))
 
+    cfn = {}          # fid -> (kind, keybase) of the functions the Lean model covers
+    cfid = {}         # call -> fid
     for i, (op, st) in enumerate(zip(sc["ops"], run["steps"])):
         k, ctx = op[0], op[1]
-        if k == "fork":
+        if k == "cdef":
+            prot = rc.CDECORATORS[op[3]][1]
+            if prot is not None:
+                cfn[op[2]] = (op[3], op[4])
+                lines.append((f"cdef {op[2]} {1 if prot else 0}", i, "cdef"))
+        elif k == "cstart":
+            cfid[op[3]] = op[2]
+            if op[2] in cfn:
+                key = rc.ckey(cfn[op[2]][1], op[2], op[4])
+                lines.append((f"cstart {op[2]} {op[3]} {ctx} {rc.enc(key)}", i, "cstart"))
+        elif k == "cfin":
+            if cfid.get(op[2]) in cfn:
+                lines.append((f"cfin {cfid[op[2]]} {op[2]}", i, "cfin"))
+        elif k == "fork":
             lines.append((f"fork {ctx} {op[2]}", i, "ctl"))
             live.append(op[2])
             view_lines(i)
@@ -143,6 +182,8 @@ def build_lines(sc, run):
             lines.append((f"cmd {ctx} {tx} {op[2]} " + " ".join(rc.enc(x) for x in ks), i, "cmd"))
         elif k == "dec" and op[2] == "cache":
             lines.append((f"dec {ctx} {rc.enc(op[3])} {op[4]}", i, "dec"))
+    for fid in sorted(cfn):
+        lines.append((f"cdrain {fid}", ("drain", fid), "cdrain"))
     return lines
 
 
@@ -353,6 +394,7 @@ def spec_check(sc, run):
                     bad.append((i, "decorator-not-executed", f"{op}: cache fully disabled but the body ran {st['execs']} times in {op[4]} calls"))
                 if st["log"]:
                     bad.append((i, "disabled-decorator-issued", f"{op}: cache fully disabled but backend commands were issued: {[rc.fmt_call(e) for e in st['log']][:4]}"))
+    bad += conc_spec(sc, run)
     # write-then-read scenarios: final placement of the written keys
     if sc.get("wr"):
         exp: dict[int, set] = {b: set() for b in registered}
@@ -393,6 +435,61 @@ def spec_check(sc, run):
     return bad
 
 
+def conc_spec(sc, run):
+    """overlapping calls of decorated functions: the property on the implementation's own observations"""
+    bad = []
+    kinds = {}
+    starts = {}
+    for i, (op, st) in enumerate(zip(sc["ops"], run["steps"])):
+        if op[0] == "cdef":
+            kinds[op[2]] = (op[3], op[4])
+        elif op[0] == "cstart":
+            starts[op[3]] = (i, op, st)
+    cc = run.get("ccalls", {})
+    for call, (i, op, st) in starts.items():
+        if st.get("exc") == "NC":
+            continue                      # the starting task itself was refused: nothing ran
+        info = cc.get(str(call))
+        if info is None or "exc" in st:
+            raise HarnessError(f"no record of overlapping call {call} ({st})")
+        dk, keybase = kinds[op[2]]
+        out = info["out"]
+        if out.get("exc") == "NC" and longest(sc["regs"], rc.ckey(keybase, op[2], op[4])) is None:
+            continue                      # no prefix matches the function's keys: refusing is the routing rule, not disabling
+        others = [c for c in st["in_flight"]]
+        where = f"{op} ({dk}; calls {others} in flight)" if others else f"{op} ({dk})"
+        if "exec" in out and str(out["arg"]) != str(info["arg"]):
+            bad.append((i, "decorator-foreign-argument",
+                        f"{where}: called with {info['arg']!r}, handed {out['r']!r} - the result of a call with {out['arg']!r}"))
+        full = st["full"]
+        must_own = full or dk in rc.ALWAYS_OWN or (st["reads_off"] and dk not in rc.COALESCING)
+        why = ("the caller sees the cache fully disabled" if full else
+               f"@{dk} never shares executions" if dk in rc.ALWAYS_OWN else "every read command is disabled")
+        if full:
+            if st["exec"] is None:
+                bad.append((i, "decorator-not-executed-concurrent",
+                            f"{where}: {why}, but the call did not start the body "
+                            f"(outcome {show_out(out)}, executions of the function so far: {run['cfns'][str(op[2])]['execs']})"))
+                continue
+            if st["log"]:
+                bad.append((i, "disabled-decorator-issued",
+                            f"{where}: {why}, but backend commands were issued: {[rc.fmt_call(e) for e in st['log']][:4]}"))
+        if not must_own:
+            continue
+        if out.get("exc") == "HANG":
+            bad.append((i, f"disabled-{dk}-hangs" if full else f"{dk}-hangs", f"{where}: the call never finished"))
+        elif "exc" in out and out["exc"] != "NC":
+            bad.append((i, f"disabled-{dk}-raises" if full else f"{dk}-raises", f"{where}: raised {out['exc']}"))
+        elif "exc" not in out:
+            if len(info["execs"]) != 1:
+                bad.append((i, "decorator-not-executed-concurrent",
+                            f"{where}: {why}, but the call ran the body {len(info['execs'])} times (outcome {show_out(out)})"))
+            elif out.get("exec") != info["execs"][0]:
+                bad.append((i, "decorator-shared-result",
+                            f"{where}: {why}; the call ran execution {info['execs'][0]} but was handed {out['r']!r}"))
+    return bad
+
+
 def show_out(st) -> str:
     return f"raise:{st['exc']}" if "exc" in st else repr(rc.canon(st.get("r")))
 
@@ -405,8 +502,40 @@ def model_check(sc, run, lines, answers):
             raise HarnessError(f"model driver does not understand {line!r}")
         if i is None:
             continue
+        if what == "cdrain":
+            d = run["drain"][str(i[1])]
+            impl = conc_delta(d)
+            if impl != norm_delta(ans.split(" left=")[0]) or " left=0 " not in ans + " ":
+                bad.append((len(sc["ops"]) - 1, f"releasing the bodies still parked of function {i[1]}: impl {impl}, model {ans}"))
+            continue
         st = run["steps"][i]
         op = sc["ops"][i]
+        if what == "cdef":
+            continue
+        if what == "cstart":
+            if "exc" in st:
+                impl = "NC" if st["exc"] == "NC" else f"raise:{st['exc']}"
+            elif st["done"] is not None:
+                d = st["done"]
+                impl = "NC" if d.get("exc") == "NC" else f"raise:{d['exc']}" if "exc" in d else \
+                    f"hit:{d['exec']}" if ("exec" in d and st["exec"] is None) else f"ended:{d.get('r')!r}"
+            elif st["exec"] is not None:
+                impl = f"runs:{st['exec']}"
+            else:
+                impl = "waits"
+            m_what, m_calls = ans.split(" ")
+            m_what = m_what[len("start="):]
+            m_norm = "runs:" + m_what.split(":")[1] if m_what.split(":")[0] in ("own", "bypass") else \
+                "waits" if m_what.startswith("join:") else m_what
+            impl_calls = ";".join(rc.fmt_call(e) for e in rc.outer(st.get("log", []))) or "-"
+            if impl != m_norm or impl_calls != m_calls[len("calls="):]:
+                bad.append((i, f"{op}: impl {impl} issued {impl_calls}, model {ans}"))
+            continue
+        if what == "cfin":
+            impl = conc_delta(st)
+            if impl != norm_delta(ans):
+                bad.append((i, f"{op}: impl {impl}, model {ans}"))
+            continue
         if what == "ctl":
             impl = "NC" if st.get("exc") == "NC" else "ok" if "exc" not in st else f"raise:{st['exc']}"
             if impl != ans:
@@ -447,6 +576,24 @@ def model_check(sc, run, lines, answers):
             if "exc" in st or f"execs={st['execs']}" != ex or impl_calls != cs[len("calls="):]:
                 bad.append((i, f"{op}: impl execs={st.get('execs')} calls={impl_calls} {show_out(st)}, model {ans}"))
     return bad
+
+
+def conc_delta(st) -> str:
+    """calls that ended (call:execution handed over) and backend commands issued, in the model driver's notation"""
+    done = []
+    for c, d in sorted(st["done"].items(), key=lambda x: int(x[0])):
+        done.append(f"{c}:{d['exec']}" if "exec" in d else f"{c}:{show_out(d)}")
+    calls = ";".join(rc.fmt_call(e) for e in rc.outer(st["log"])) or "-"
+    return f"done={','.join(done) or '-'} calls={calls}"
+
+
+def norm_delta(ans: str) -> str:
+    """the model's `done=` pairs sorted by call number (which caller resumes first is not an observable)"""
+    done, calls = ans.split(" ")
+    pairs = done[len("done="):]
+    if pairs != "-":
+        pairs = ",".join(sorted(pairs.split(","), key=lambda x: int(x.split(":")[0])))
+    return f"done={pairs} {calls}"
 
 
 def run_case(sc):
@@ -677,6 +824,78 @@ def gen_decorators(rng, prefixes, state):
     return {"regs": regs, "ops": ops, "kind": "decorators_" + state}
 
 
+CONC_STATES = ["full", "full_disabling", "full_then_child_enables", "reads_off", "get_off", "one_prefix_off", "none",
+               "toggle"]
+
+
+def conc_events(rng, fid, first_call, ctxs, nmin=2, nmax=4):
+    """2-4 overlapping calls of one function (equal and different arguments): starts in call order, every body
+    release somewhere after its start, some left to the final drain"""
+    n = rng.randint(nmin, nmax)
+    args = [rng.choice([1, 1, 2]) for _ in range(n)]
+    if rng.random() < 0.75:
+        args[1] = args[0]
+    evs, started, nxt = [], [], 0
+    while nxt < n or started:
+        if nxt < n and (not started or rng.random() < 0.6):
+            call = first_call + nxt
+            evs.append(["cstart", rng.choice(ctxs), fid, call, args[nxt]])
+            started.append(call)
+            nxt += 1
+        else:
+            call = started.pop(rng.randrange(len(started)))
+            if rng.random() < 0.8:
+                evs.append(["cfin", 0, call])
+    return evs, n
+
+
+def gen_conc(rng, prefixes, state, kinds=None):
+    """overlapping calls of 1-3 decorated functions under a control state, control operations in between (toggle)"""
+    regs = mk_regs(prefixes, rng)
+    ops, tail, ctxs = [], [], [0]
+    if state == "full":
+        ops += [["disable", 0, p, []] for p in prefixes]
+    elif state == "full_disabling":
+        ops += [["enter", 0, p, []] for p in prefixes]
+        tail = [["exit", 0] for _ in prefixes]
+    elif state == "full_then_child_enables":
+        ops += [["disable", 0, p, []] for p in prefixes]
+        ops += [["fork", 0, 1], ["enable", 1, rng.choice(prefixes), []]]
+        ctxs = [0, 1]
+    elif state == "reads_off":
+        ops += [["disable", 0, p, list(rc.READ_CMDS)] for p in prefixes]
+    elif state == "get_off":
+        ops += [["disable", 0, p, ["get"]] for p in prefixes]
+    elif state == "one_prefix_off":
+        ops.append(["disable", 0, rng.choice(prefixes), []])
+    kinds = kinds or rng.sample(list(rc.CDECORATORS), rng.randint(1, 3))
+    seqs, call = [], 0
+    for fid, dk in enumerate(kinds):
+        ops.append(["cdef", 0, fid, dk, rng.choice(prefixes + ["zz"]) + "d"])
+        evs, n = conc_events(rng, fid, call, ctxs)
+        call += n
+        seqs.append(evs)
+    off = state.startswith("full")
+    while any(seqs):
+        q = rng.choice([x for x in seqs if x])
+        ops.append(q.pop(0))
+        if state == "toggle" and rng.random() < 0.3:
+            off = not off
+            ops += [["disable" if off else "enable", 0, p, []] for p in prefixes]
+    return {"regs": regs, "ops": ops + tail, "kind": "conc_" + state}
+
+
+def gen_conc_enum():
+    """fully disabled cache: EVERY decorator x (equal | different arguments) x both release orders of two overlapping
+    calls, and three equal calls released middle-first"""
+    for dk in rc.CDECORATORS:
+        for args, order in [((1, 1), (0, 1)), ((1, 1), (1, 0)), ((1, 2), (0, 1)), ((1, 2), (1, 0)), ((1, 1, 1), (1, 2, 0))]:
+            ops = [["disable", 0, "", []], ["cdef", 0, 0, dk, "d"]]
+            ops += [["cstart", 0, 0, j, a] for j, a in enumerate(args)]
+            ops += [["cfin", 0, j] for j in order]
+            yield {"regs": [["", 0]], "ops": ops, "kind": "conc_full_enum"}
+
+
 def prefix_sets(alphabet, maxsize=4):
     for n in range(0, maxsize + 1):
         for comb in itertools.combinations(alphabet, n):
@@ -725,6 +944,22 @@ def interesting(sc, run):
         elif op[0] == "dec":
             if st.get("full"):
                 tags.add("decorated_call_while_fully_disabled")
+        elif op[0] == "cstart" and "exc" not in st:
+            cc = run["ccalls"]
+            flying = [cc[str(c)] for c in st["in_flight"] if cc[str(c)]["fid"] == op[2]]
+            same = [d for d in flying if str(d["arg"]) == str(op[4])]
+            if st["full"] and flying:
+                tags.add("overlapping_calls_while_fully_disabled")
+            if st["full"] and same:
+                tags.add("overlapping_same_key_while_fully_disabled")
+            if st["full"] and any(not d["full"] for d in same):
+                tags.add("fully_disabled_call_meets_enabled_call_in_flight")
+            if not st["full"] and any(d["full"] for d in same):
+                tags.add("enabled_call_meets_fully_disabled_call_in_flight")
+            if not st["full"] and st["exec"] is None and st["done"] is None and same:
+                tags.add("call_joined_or_locked_behind_call_in_flight")
+            if not st["full"] and st["reads_off"] and flying:
+                tags.add("overlapping_calls_while_reads_disabled")
     return tags
 
 
@@ -794,6 +1029,13 @@ def generate(chk: Check):
         for state in ["full", "full_then_child_enables", "get_off", "one_prefix_off", "none"]:
             t = rng.choice(tables)
             cases.append(("decorators", gen_decorators(rng, t, state)))
+    # (E) overlapping calls of decorated functions
+    for sc in gen_conc_enum():
+        cases.append(("conc_full_enum", sc))
+    for _ in range(chk.budget(20, 150)):
+        for state in CONC_STATES:
+            t = rng.choice(tables)
+            cases.append(("conc", gen_conc(rng, t, state)))
     return cases, n_sets, len(alphabet)
 
 
@@ -851,10 +1093,17 @@ def run(chk: Check) -> int:
                 "command and 'all' in four nestings with a transaction, pairs of disabled commands (all pairs in thorough, 80 sampled "
                 "in quick) x every public command; sampled from VERIF_SEED: task nestings, 5-6 prefix tables, re-registration, "
                 "decorators. A scenario is non-trivial iff it reached at least one interesting state (see interesting_states_cases); "
-                "distinct = distinct (table, op list)",
+                "Overlapping decorated calls: every decorator variant x equal/different arguments x both release orders of two "
+                "calls (and three equal calls released middle-first) under a full disable (enumerated); sampled: 1-3 functions x "
+                "2-4 calls each x random start/release interleavings x 8 control states incl. control operations between the "
+                "calls and a child task that re-enabled the cache. distinct = distinct (table, op list)",
         "exhaustive": True,
         "exhaustive_subspace": f"all {n_sets} prefix sets of size <= 4 over a {n_alpha}-string alphabet x all keys (routing); "
-                               f"all 28 single-command disabled sets + 'all' x 4 transaction nestings x all {len(rc.INVOKE)} public commands",
+                               f"all 28 single-command disabled sets + 'all' x 4 transaction nestings x all {len(rc.INVOKE)} public commands; "
+                               f"all {len(rc.CDECORATORS)} decorator variants x (equal | different arguments) x both release orders of two "
+                               f"overlapping calls under a full disable",
+        "overlapping_call_decorators": sorted(rc.CDECORATORS),
+        "overlapping_calls_started": cmd_hist.get("~cstart", 0),
         "prefix_sets_enumerated": n_sets,
         "routing_lookups": routing_lookups,
         "operations_executed": steps,
@@ -882,7 +1131,21 @@ def replay(chk: Check, path: str) -> int:
         if op[0] in ("cmd", "dec"):
             extra = "  issued=" + (";".join(rc.fmt_call(e) for e in rc.outer(st["log"])) or "-")
         out = show_out(st) if ("r" in st or "exc" in st) else "-"
+        if op[0] == "cstart" and "exc" not in st:
+            out = (f"fully_disabled={st['full']} " +
+                   (f"ended at once: {show_out(st['done'])}" if st["done"] is not None else
+                    f"runs execution {st['exec']} of the body" if st["exec"] is not None else "waits (no execution of its own)"))
+            extra = "  issued=" + (";".join(rc.fmt_call(e) for e in rc.outer(st["log"])) or "-")
+        elif op[0] == "cfin":
+            out = (f"released execution {st['released']}" if st["released"] is not None else "nothing to release") + \
+                "; ended: " + (", ".join(f"call {c} <- {show_out(d)}" for c, d in st["done"].items()) or "-")
         print(f"{i:3d} {str(op):70s} -> {out}{extra}")
+    for fid, d in run_.get("drain", {}).items():
+        if d["done"]:
+            print(f"    remaining bodies of function {fid} released; ended: " +
+                  ", ".join(f"call {c} <- {show_out(o)}" for c, o in d["done"].items()))
+    for fid, f in run_.get("cfns", {}).items():
+        print(f"    function {fid} (@{f['kind']}): executions [number, started by call, argument] = {f['execs']}")
     for i, sig, t in s:
         print(f"PROPERTY step {i} [{sig}]: {t}")
     for i, t in m:
